@@ -53,3 +53,41 @@ Section LimitMachine.
     replace (off - 0)%nat with off by lia. reflexivity.
   Qed.
 End LimitMachine.
+
+(* ------------------------------------------------------------------ the TopK heap size *)
+(* DynamicExecutor::TopK sizes its heap as limit.saturating_add(offset) (commit 95facdb; the planner
+   does the same since 73de5ec).  The model uses the exact sum l + o.  Whenever the heap size
+   exceeds the number of input rows the heap never fills and the executor simply sorts its input,
+   whatever the size is: so capping the sum at 2^64 - 1 cannot be told from the exact sum on any
+   input of fewer than 2^64 - 1 rows. *)
+From TV Require Import Proof.KnnOrder.
+From Coq Require Import Permutation.
+
+Section TopKSize.
+  Context {A : Type} (cmp : A -> A -> comparison).
+
+  Lemma topk_feed_never_full : forall k (rows h : list A),
+    (length h + length rows < k)%nat -> topk_feed cmp k h rows = TOk (h ++ rows).
+  Proof.
+    intros k rows. induction rows as [|x rows IH]; intros h Hlen; cbn [topk_feed].
+    - rewrite app_nil_r. reflexivity.
+    - cbn [length] in Hlen.
+      destruct (length h <? k)%nat eqn:E; [|apply Nat.ltb_ge in E; lia].
+      destruct (length (h ++ [x]) =? k)%nat eqn:E2.
+      + apply Nat.eqb_eq in E2. rewrite app_length in E2. cbn [length] in E2. lia.
+      + rewrite IH; [rewrite <- app_assoc; reflexivity|]. rewrite app_length. cbn [length]. lia.
+  Qed.
+
+  Lemma topk_beyond_length_l : forall k (rows : list A),
+    (length rows < k)%nat -> topk cmp k rows = TOk (isort (c_less cmp) rows).
+  Proof.
+    intros k rows Hlen. unfold topk. rewrite topk_feed_never_full by (cbn [length]; lia).
+    cbn [app]. f_equal. apply firstn_all2.
+    rewrite (Permutation_length (isort_perm (c_less cmp) rows)). lia.
+  Qed.
+
+  (* any two heap sizes beyond the input give the same rows *)
+  Lemma topk_size_irrelevant_l : forall k k' (rows : list A),
+    (length rows < k)%nat -> (length rows < k')%nat -> topk cmp k rows = topk cmp k' rows.
+  Proof. intros k k' rows H H'. rewrite !topk_beyond_length_l by assumption. reflexivity. Qed.
+End TopKSize.
